@@ -1421,6 +1421,15 @@ func TestVerifC19Probe(t *testing.T) {
 	t.Logf("legacy-overwrite (empty assistant) prompt=%q", run(2048, []api.Message{{Role: "user", Content: "hello"}, {Role: "assistant", Content: ""}, {Role: "user", Content: "again"}}))
 	t.Logf("legacy-overwrite (tool between) prompt=%q", run(2048, []api.Message{{Role: "user", Content: "first"}, {Role: "tool", Content: "42"}, {Role: "user", Content: "second"}}))
 	t.Logf("legacy-overwrite (system) prompt=%q", run(2048, []api.Message{{Role: "system", Content: "A"}, {Role: "user", Content: ""}, {Role: "system", Content: "B"}, {Role: "user", Content: "hi"}}))
+	// first failure is not longest-fitting (strings.Fields tokenizer, in-place template, num_ctx 1): the whole conversation is
+	// ONE token, yet only the latest message is kept, because the run [2:] measures 2 tokens (collate's blank line)
+	inPlace, _ := template.Parse(c19TemplateSrc[c19StyleInPlace])
+	opts := api.Options{Runner: api.Runner{NumCtx: 1}}
+	conv := []api.Message{{Role: "system", Content: "a"}, {Role: "user", Content: "b"}, {Role: "system", Content: "c"}, {Role: "user", Content: "d"}}
+	p, _, err := chatPrompt(context.Background(), &Model{Template: inPlace}, tok, &opts, conv, nil)
+	var whole bytes.Buffer
+	_ = inPlace.Execute(&whole, template.Values{Messages: []api.Message{{Role: "system", Content: "a"}, {Role: "user", Content: "b"}, {Role: "system", Content: "c"}, {Role: "user", Content: "d"}}})
+	t.Logf("first-failure-not-longest: prompt=%q err=%v; the whole conversation renders to %q = %d token(s)", p, err, whole.String(), len(strings.Fields(whole.String())))
 }
 
 // TestVerifC19ProbeLiteralTag: finding F5 on the real chatPrompt, no model involved: a literal `[img-N]` in a
